@@ -67,7 +67,8 @@ Runs(p)      == SelectSeq(p.items, LAMBDA it : it.k = "r")
 RunText(it)  == it.t
 RunTexts(p)  == [j \in 1..Len(Runs(p)) |-> RunText(Runs(p)[j])]
 Readers(b)   == [frame |-> FrameText(b), paras |-> [k \in 1..Len(b) |-> ParaText(b[k])], runs |-> [k \in 1..Len(b) |-> RunTexts(b[k])]]
-Obs(b)       == [body |-> b, rd |-> Readers(b)]
+Obs(b)       == [body |-> b, rd |-> Readers(b), rdk |-> Readers(b).paras]     \* rdk: the paragraph texts read through a TextFrame object
+                                                                              \* obtained BEFORE the call (one text body, one text)
 
 BrCount(p)   == Len(SelectSeq(p.items, LAMBDA it : it.k = "br"))
 RunIx(p, j)  == SelectSeq([m \in 1..Len(p.items) |-> m], LAMBDA m : p.items[m].k = "r")[j]     \* item index of the j-th a:r
@@ -90,7 +91,7 @@ ValidRun(o, i, j) == ValidPara(o, i) /\ j >= 1 /\ j <= Len(Runs(o.body[i])) /\ j
 
 \* ------------------------------------------------------------------ PROPERTY layer: named clauses on observations s --a--> t
 PostNames == <<"ReadBack", "WhitespaceKept", "ParaPerSegment", "BreakPerBreak", "KeepsProps", "OthersKept",
-               "ReopenSameText", "ReopenWhitespace">>
+               "ReopenSameText", "ReopenWhitespace", "KeptObjectAgrees">>
 RunProfiles(o) == [k \in 1..Len(o.rd.runs) |-> [j \in 1..Len(o.rd.runs[k]) |-> WsProfile(o.rd.runs[k][j])]]
 Holds(n, s, a, t) ==
   CASE n = "ReadBack" ->            \* the reader of the level assigned to returns the string, translated as documented for that level
@@ -130,6 +131,9 @@ Holds(n, s, a, t) ==
          a.op = "SaveReopen" => t.rd = s.rd
     [] n = "ReopenWhitespace" ->    \* ... whitespace-only and leading/trailing blanks included
          a.op = "SaveReopen" => WsProfile(t.rd.frame) = WsProfile(s.rd.frame) /\ RunProfiles(t) = RunProfiles(s)
+    [] n = "KeptObjectAgrees" ->    \* "the text read back": through whichever object of that text body it is read - a text frame the caller
+                                    \* obtained before the call reads what a fresh one reads (it is a view of the shape, not a copy)
+         t.rdk = t.rd.paras
 Failing(s, a, t) == {PostNames[i] : i \in {j \in DOMAIN PostNames : ~Holds(PostNames[j], s, a, t)}}
 Post(s, a, t) == Failing(s, a, t) = {}
 
